@@ -58,7 +58,7 @@ TReply == /\ IsEv("Reply")
                  \* a datagram longer than WholeLimit may be cut by the receiver at any length >= WholeLimit: outcome open
                  \* (as for malformed ones), but whatever is reported must be encoded in the datagram as sent
                  c == IF Len(d) > WholeLimit THEN [cls |-> "malformed", id |-> 0, res |-> NoRes]
-                      ELSE Classify(d, IF k = 0 THEN <<>> ELSE qn[k])
+                      ELSE ClassifyT(d, IF k = 0 THEN <<>> ELSE qn[k])
              IN Reply(Ev.s, k, c.cls, Exact(c.res)) /\ Encoded(d)
           /\ UNCHANGED <<idOf, qn>> /\ Post
 TTick == IsEv("Tick") /\ TickOf({Ev.cbs[i].k : i \in 1..Len(Ev.cbs)} \cap Pending) /\ UNCHANGED <<idOf, qn>> /\ Post /\ NothingReported
